@@ -292,6 +292,121 @@ pub fn run(args: &Args) -> i32 {
         }
     }
 
+    // ---------------- literals of consecutive blocks: the compressor may keep its table for the next block (treeless
+    // literals) when the new histogram is close enough. Chains of 2..=5 literal buffers whose histograms are variations of
+    // one another (a symbol above the old maximum, a symbol in a gap of the old alphabet, dropped symbols, shifted
+    // frequencies, too few literals for Huffman coding to pay off) go through the compressor's literals encoder with the
+    // table it kept, and through the decoder's literals decoder with the table *it* kept.
+    let chains = args.vol(3000, 150_000);
+    par_cases(&rec, 133, chains, |ci, r| {
+        rec.eval();
+        let nsym = *r.pick(&[3usize, 8, 17, 60, 120, 200, 255]);
+        let base_first = r.usize(0, 256 - nsym.min(255) - 1) as u8;
+        // a gap in the alphabet and room above its maximum
+        let gap = r.usize(0, nsym - 1);
+        let weights: Vec<u32> = (0..nsym).map(|i| if i == gap { 0 } else { 1 + r.size(0, 400) as u32 }).collect();
+        let make = |r: &mut Rng, w: &[u32], scale: u32, first: u8| -> Vec<u8> {
+            let mut v = Vec::new();
+            for (i, c) in w.iter().enumerate() {
+                v.extend(std::iter::repeat_n(first.wrapping_add(i as u8), (*c * scale / 8) as usize));
+            }
+            for i in (1..v.len()).rev() {
+                let j = r.usize(0, i);
+                v.swap(i, j);
+            }
+            v.truncate(128 * 1024);
+            v
+        };
+        let mut kept: Option<ruzstd::huff0::huff0_encoder::HuffmanTable> = None;
+        let mut scratch = dec::HufScratch::new();
+        let mut history: Vec<String> = Vec::new();
+        let nblocks = r.usize(2, 5);
+        let mut w = weights.clone();
+        for b in 0..nblocks {
+            let mut variation = "same histogram";
+            if b > 0 {
+                match r.below(7) {
+                    0 => {}
+                    1 => {
+                        // a byte value above everything seen so far
+                        w.push(1 + r.below(3) as u32);
+                        variation = "adds a symbol above the old maximum";
+                    }
+                    2 if gap < w.len() => {
+                        w[gap] = 1 + r.below(3) as u32;
+                        variation = "adds a symbol inside a gap of the old alphabet";
+                    }
+                    2 => {}
+                    3 => {
+                        let k = r.usize(0, w.len() - 1);
+                        w[k] = 0;
+                        variation = "drops a symbol";
+                    }
+                    4 => {
+                        for x in w.iter_mut() {
+                            if *x > 0 && r.chance(1, 4) {
+                                *x = (*x + r.below(20) as u32).max(1);
+                            }
+                        }
+                        variation = "shifts some frequencies";
+                    }
+                    5 => {
+                        w.truncate(w.len().max(3) - 1);
+                        variation = "loses its largest symbol";
+                    }
+                    _ => {
+                        w.reverse();
+                        variation = "reversed rank order";
+                    }
+                }
+            }
+            if w.len() + base_first as usize > 256 {
+                w.truncate(256 - base_first as usize);
+            }
+            // sometimes so few literals that Huffman coding does not pay off (raw fallback of the section)
+            let scale = *r.pick(&[1u32, 8, 8, 16, 40, 100]);
+            let lits = make(r, &w, scale, base_first);
+            let distinct = { let mut seen = [false; 256]; lits.iter().for_each(|b| seen[*b as usize] = true); seen.iter().filter(|x| **x).count() };
+            // compress_block hands literals to the Huffman stage only if there are more than 1024 of them with at least two
+            // values; everything else is written raw and leaves both tables alone
+            if lits.len() <= 1024 || distinct < 2 {
+                history.push(format!("block {b}: {} literals written raw by compress_block", lits.len()));
+                continue;
+            }
+            history.push(format!("block {b}: {} literals, {distinct} symbols, {variation}", lits.len()));
+            let replay = json!({"part": "chain", "case": [args.seed, 133, ci], "history": history});
+            let kept_ref = kept.as_ref();
+            let res = catch(|| enc::compress_literals(&lits, kept_ref));
+            let (sec, new_table) = match res {
+                Ok(x) => x,
+                Err(p) => {
+                    rec.panic_violation(&p, "literals of consecutive blocks", json!({"history": history}), replay);
+                    return;
+                }
+            };
+            let mode = sec[0] & 3;
+            rec.count(["chain_sections_raw", "chain_sections_rle", "chain_sections_huffman_new_table", "chain_sections_treeless"][mode as usize], 1);
+            let back = catch(|| dec::decode_literals_section(&sec, &mut scratch));
+            match back {
+                Ok(Ok((out, used))) if out == lits && used == sec.len() => {}
+                other => {
+                    let got = match other {
+                        Ok(Ok((out, used))) => format!("decodes to {} bytes (expected {}) using {used} of {} section bytes", out.len(), lits.len(), sec.len()),
+                        Ok(Err(e)) => format!("the literals decoder rejects the section: {e}"),
+                        Err(p) => format!("the literals decoder panics: {}", p.what),
+                    };
+                    rec.violation(Sig::new("consecutive_blocks", ["raw", "rle", "huffman", "treeless"][mode as usize], &short(&got)), json!({"what": got, "history": history}), replay);
+                    return;
+                }
+            }
+            // what compress_block does with the result
+            if let Some(t) = new_table {
+                kept = Some(t);
+            }
+        }
+        rec.distinct(fnv_str(&history.iter().map(|h| h.split(", ").last().unwrap_or("")).collect::<Vec<_>>().join("|")) ^ nsym as u64);
+    });
+
     // ---------------- decoder side: all direct weight vectors up to a bound (values 0..=12: 12 is the smallest illegal weight)
     let max_len = if args.thorough() { 6 } else { 5 };
     let mut total: u64 = 0;
